@@ -1,0 +1,177 @@
+// SPDX-License-Identifier: Apache-2.0 OR BSD-3-Clause
+
+//! Observation hooks for external runtime monitors.
+//!
+//! This module only exists when the crate is built with `--cfg vm_memory_verif`. Every hook is
+//! inert until a monitor registers a callback: the instrumented code paths then perform one
+//! relaxed atomic load and nothing else. No hook changes the data, the control flow or the
+//! memory orderings of the code it observes.
+
+use std::sync::atomic::{AtomicUsize, Ordering};
+
+/// One primitive memory access performed by the byte-copy helper of `volatile_memory`.
+#[derive(Clone, Copy, Debug, PartialEq, Eq)]
+pub enum CopyEvent {
+    /// A single volatile load + store of `width` bytes (1, 2, 4 or 8).
+    Single {
+        /// Access width in bytes.
+        width: usize,
+        /// Source address.
+        src: usize,
+        /// Destination address.
+        dst: usize,
+    },
+    /// A bulk (non single-access) copy of `len` bytes.
+    Bulk {
+        /// Number of bytes.
+        len: usize,
+        /// Source address.
+        src: usize,
+        /// Destination address.
+        dst: usize,
+    },
+}
+
+static COPY_HOOK: AtomicUsize = AtomicUsize::new(0);
+
+/// Registers (or clears) the callback that receives every [`CopyEvent`].
+pub fn set_copy_hook(hook: Option<fn(CopyEvent)>) {
+    COPY_HOOK.store(hook.map_or(0, |f| f as usize), Ordering::SeqCst);
+}
+
+#[inline]
+pub(crate) fn trace_copy(ev: CopyEvent) {
+    let p = COPY_HOOK.load(Ordering::Relaxed);
+    if p != 0 {
+        // SAFETY: the only non-zero values ever stored are `fn(CopyEvent)` pointers.
+        let f: fn(CopyEvent) = unsafe { std::mem::transmute::<usize, fn(CopyEvent)>(p) };
+        f(ev);
+    }
+}
+
+/// Kind of atomic operation about to be performed on a bitmap word.
+#[derive(Clone, Copy, Debug, PartialEq, Eq)]
+pub enum AtomicOp {
+    /// `load`
+    Load,
+    /// `store`
+    Store,
+    /// `fetch_or`
+    FetchOr,
+    /// `fetch_and`
+    FetchAnd,
+    /// any other read-modify-write (`swap`, `fetch_xor`, `compare_exchange`, ...)
+    Rmw,
+}
+
+static SCHED_HOOK: AtomicUsize = AtomicUsize::new(0);
+
+/// Registers (or clears) the callback invoked immediately *before* every atomic operation of
+/// the [`AtomicU64`] shim, with the kind of operation and the address of the word.
+pub fn set_sched_hook(hook: Option<fn(AtomicOp, usize)>) {
+    SCHED_HOOK.store(hook.map_or(0, |f| f as usize), Ordering::SeqCst);
+}
+
+#[inline]
+fn sched_point(op: AtomicOp, addr: usize) {
+    let p = SCHED_HOOK.load(Ordering::Relaxed);
+    if p != 0 {
+        // SAFETY: the only non-zero values ever stored are `fn(AtomicOp, usize)` pointers.
+        let f: fn(AtomicOp, usize) =
+            unsafe { std::mem::transmute::<usize, fn(AtomicOp, usize)>(p) };
+        f(op, addr);
+    }
+}
+
+/// Drop-in stand-in for `std::sync::atomic::AtomicU64` that announces every operation to the
+/// registered scheduler hook and then performs the real operation with the caller's ordering.
+#[derive(Debug, Default)]
+#[repr(transparent)]
+pub struct AtomicU64(std::sync::atomic::AtomicU64);
+
+impl AtomicU64 {
+    /// See `std::sync::atomic::AtomicU64::new`.
+    pub const fn new(v: u64) -> Self {
+        Self(std::sync::atomic::AtomicU64::new(v))
+    }
+
+    /// See `std::sync::atomic::AtomicU64::load`.
+    #[inline]
+    pub fn load(&self, order: Ordering) -> u64 {
+        sched_point(AtomicOp::Load, self as *const Self as usize);
+        self.0.load(order)
+    }
+
+    /// See `std::sync::atomic::AtomicU64::store`.
+    #[inline]
+    pub fn store(&self, val: u64, order: Ordering) {
+        sched_point(AtomicOp::Store, self as *const Self as usize);
+        self.0.store(val, order)
+    }
+
+    /// See `std::sync::atomic::AtomicU64::fetch_or`.
+    #[inline]
+    pub fn fetch_or(&self, val: u64, order: Ordering) -> u64 {
+        sched_point(AtomicOp::FetchOr, self as *const Self as usize);
+        self.0.fetch_or(val, order)
+    }
+
+    /// See `std::sync::atomic::AtomicU64::fetch_and`.
+    #[inline]
+    pub fn fetch_and(&self, val: u64, order: Ordering) -> u64 {
+        sched_point(AtomicOp::FetchAnd, self as *const Self as usize);
+        self.0.fetch_and(val, order)
+    }
+
+    /// See `std::sync::atomic::AtomicU64::swap`.
+    #[inline]
+    pub fn swap(&self, val: u64, order: Ordering) -> u64 {
+        sched_point(AtomicOp::Rmw, self as *const Self as usize);
+        self.0.swap(val, order)
+    }
+
+    /// See `std::sync::atomic::AtomicU64::fetch_xor`.
+    #[inline]
+    pub fn fetch_xor(&self, val: u64, order: Ordering) -> u64 {
+        sched_point(AtomicOp::Rmw, self as *const Self as usize);
+        self.0.fetch_xor(val, order)
+    }
+
+    /// See `std::sync::atomic::AtomicU64::compare_exchange`.
+    #[inline]
+    pub fn compare_exchange(
+        &self,
+        current: u64,
+        new: u64,
+        success: Ordering,
+        failure: Ordering,
+    ) -> Result<u64, u64> {
+        sched_point(AtomicOp::Rmw, self as *const Self as usize);
+        self.0.compare_exchange(current, new, success, failure)
+    }
+
+    /// See `std::sync::atomic::AtomicU64::compare_exchange_weak`.
+    #[inline]
+    pub fn compare_exchange_weak(
+        &self,
+        current: u64,
+        new: u64,
+        success: Ordering,
+        failure: Ordering,
+    ) -> Result<u64, u64> {
+        sched_point(AtomicOp::Rmw, self as *const Self as usize);
+        self.0.compare_exchange_weak(current, new, success, failure)
+    }
+
+    /// See `std::sync::atomic::AtomicU64::get_mut`.
+    #[inline]
+    pub fn get_mut(&mut self) -> &mut u64 {
+        self.0.get_mut()
+    }
+
+    /// See `std::sync::atomic::AtomicU64::into_inner`.
+    #[inline]
+    pub fn into_inner(self) -> u64 {
+        self.0.into_inner()
+    }
+}
